@@ -24,12 +24,12 @@ META = dict(
    design='3/C14')
 
 F7MSG = 'buf[0..ret) is not the extracted bytes / bytes outside it changed'
-F13MSG = 'reads iov[0] of an empty iovector_view'
-F14MSG = '-1 although the request can be truncated to the content'
+C14A_MSG = 'reads iov[0] of an empty iovector_view'
+C14B_MSG = '-1 although the request can be truncated to the content'
 KNOWN_TEXT = {
     'F7': 'extract_back(bytes, buf) with bytes > content returns the right count but stores the data at buf+(bytes-ret) instead of buf[0..ret)',
-    'F13': 'memcpy_to/memcpy_from/pipe with an empty iovector_view operand: iov_iterator reads iov[0], which is outside the view (nullptr for a default-constructed view)',
-    'F14': 'iovector::slice(count>0, offset, empty view) on an empty iovector returns -1 instead of an empty slice (0)',
+    'C14a': 'memcpy_to/memcpy_from/pipe with an empty iovector_view operand: iov_iterator reads iov[0], which is outside the view (nullptr for a default-constructed view)',
+    'C14b': 'iovector::slice(count>0, offset, empty view) on an empty iovector returns -1 instead of an empty slice (0)',
 }
 
 def _sum(v):
@@ -49,7 +49,7 @@ def _classify(row, text):
             empty_it = cnt == 0 if op in ('mtob', 'mfromb') else (cnt == 0 or wcnt == 0) if op in ('mtov', 'mfromv') else \
                        wcnt == 0 if op == 'ptov' else cnt == 0
             if empty_it:
-                return ('F13', KNOWN_TEXT['F13'])
+                return ('C14a', KNOWN_TEXT['C14a'])
         return None
     probs = set(re.findall(r'"([^"]*)"', text))
     if probs == {F7MSG} and row['op'] == 'xbb':
@@ -58,14 +58,14 @@ def _classify(row, text):
         flat = [pre[b][o + j] for b, o, ln in row['v'] for j in range(ln)]
         if T > 0 and n > T and ret == T and post.get(D) == pre[D][:n - T] + flat and row['v2'] == []:
             return ('F7', KNOWN_TEXT['F7'])
-    if probs == {F14MSG} and row['op'] == 'slice' and row['own'] and row['v'] == [] and row['N'] == 0 and row['n'] > 0 and row['ret'] == -1:
-        return ('F14', KNOWN_TEXT['F14'])
+    if probs == {C14B_MSG} and row['op'] == 'slice' and row['own'] and row['v'] == [] and row['N'] == 0 and row['n'] > 0 and row['ret'] == -1:
+        return ('C14b', KNOWN_TEXT['C14b'])
     return None
 
 # Findings met by this check that are not (yet) listed in known-findings.json.  Each is tolerated only with its exact signature
-# (F7sig/F13sig/F14sig in IOVector.tla, classify() below).  DELETE an id here when its fix: commit lands (and update the
+# (F7_sig/C14a_sig/C14b_sig in IOVector.tla, classify() below).  DELETE an id here when its fix: commit lands (and update the
 # transcription in IOVectorOps.tla, see .scratch/c14/spec_after_fix.diff) or when it is entered as open in known-findings.json.
-PROVISIONAL = {'F7', 'F13', 'F14'}
+PROVISIONAL = {'F7', 'C14a', 'C14b'}
 TOLERATED = set(PROVISIONAL)     # run() adds the ids listed open for C14 in known-findings.json
 
 def _sig(out):
@@ -79,8 +79,8 @@ def _sig(out):
     op, n, T, N, ret = op.group(1), int(n.group(1)), int(T.group(1)), int(N.group(1)), int(ret.group(1))
     fid = None
     if probs == {F7MSG} and op == 'xbb' and n > T > 0: fid = 'F7'
-    elif probs == {F13MSG} and op in ('mtob', 'mfromb', 'mtov', 'mfromv', 'ptov', 'pfromv'): fid = 'F13'
-    elif probs == {F14MSG} and op == 'slice' and T == 0 and N == 0 and n > 0 and ret == -1: fid = 'F14'
+    elif probs == {C14A_MSG} and op in ('mtob', 'mfromb', 'mtov', 'mfromv', 'ptov', 'pfromv'): fid = 'C14a'
+    elif probs == {C14B_MSG} and op == 'slice' and T == 0 and N == 0 and n > 0 and ret == -1: fid = 'C14b'
     return fid, probs, tail
 
 def _mc(ctx, cfgname, listed, timeout):
